@@ -630,6 +630,11 @@ static int check_websocket_version(const char *at, size_t length)
 
 static void fill_requested_sub_protocol(struct websocket *s, const char *name, size_t length)
 {
+	/* A list element may be followed by optional whitespace before the comma (RFC 7230, 7). */
+	while ((length > 0) && isspace((unsigned char)name[length - 1])) {
+		length--;
+	}
+
 	size_t name_length = strlen(s->sub_protocol.name);
 	if (name_length == length) {
 		if (memcmp(s->sub_protocol.name, name, length) == 0) {
